@@ -23,7 +23,34 @@ CLAIMS = {
             'design_ref': 'DESIGN.md 3.3, 6/C15', 'note': TRUST, 'technique': TECH},
     'C16': {'text': 'The trace specification decodes every NOFMT record of the written file and compares reference and payload, in order, with the payloads recorded at add_no_format_frame_data; lossless segmentation of arbitrary bodies is model-checked on Segmenter.',
             'design_ref': 'DESIGN.md 6/C16', 'note': TRUST, 'technique': TECH},
+    'C03': {'text': 'Every FDATA record of every written file is located by TLC through the decoded FRAME/CHANNEL objects, sliced by the decoded representation codes and dimensions, and compared slot by slot with the big-endian image of the input rows (dtype x byte order x layout x width x rows x chunk x record length x cast, special bit patterns); numbering 1..N and record count are checked per frame.',
+            'design_ref': 'DESIGN.md 6/C03', 'note': TRUST, 'technique': TECH},
+    'C04': {'text': 'The component grammar RP66EFLR (set, template, objects, attribute components with inherited defaults) is evaluated by TLC on every EFLR body reassembled from files holding all object classes under attribute-subset patterns, multiplicities up to 200, named/unnamed sets and empty lists; the encoder/decoder of primitive values it relies on are model-checked (PrimModel).',
+            'design_ref': 'DESIGN.md 3.4, 6/C04', 'note': TRUST, 'technique': TECH},
+    'C05': {'text': 'The trace specification folds the history of API calls into Canon (the current specification) and requires, for every assigned attribute of every object, an equal decoded value/units under the standard label in the set of that type and name; unassigned attributes must be absent unless documented additions.',
+            'design_ref': 'DESIGN.md 3.5, 6/C05', 'note': TRUST, 'technique': TECH},
+    'C07': {'text': 'On the decoded file TLC checks identity uniqueness per logical file, that every OBNAME/OBJREF value and every IFLR reference resolves to exactly one object of the admissible type defined earlier, that it is the object the history passed (via Canon), and that every origin field is the origin of an ORIGIN object of the logical file.',
+            'design_ref': 'DESIGN.md 6/C07', 'note': TRUST, 'technique': TECH},
+    'C08': {'text': 'For each expected frame TLC compares decoded REPRESENTATION-CODE / DIMENSION / ELEMENT-LIMIT of the listed channels with the data written and requires every FDATA record length to equal reference + frame number + sum of code size x product of dimensions.',
+            'design_ref': 'DESIGN.md 6/C08', 'note': TRUST, 'technique': TECH},
+    'C09': {'text': 'TLC checks on the decoded record sequence: FILE-HEADER first with one object and the justified SEQUENCE-NUMBER / ID of Canon, ORIGIN set next with FILE-ID = header id and FILE-SET-NUMBER present, set (type, name) unique and non-empty, referenced objects defined before the first IFLR that refers to them.',
+            'design_ref': 'DESIGN.md 6/C09', 'note': TRUST, 'technique': TECH},
+    'C11': {'text': 'The trace specification keys every successful write by (Canon, expected rows, label); writes with equal keys must have equal bytes. Scenarios give the same data inline, as dict, structured array (fast path and copy path), HDF5 and pre-sliced, with windows and chunk sizes; slot order is checked against the frame channel list.',
+            'design_ref': 'DESIGN.md 6/C11', 'note': TRUST, 'technique': TECH},
+    'C12': {'text': 'Every class of unrepresentable input named by the property is generated in otherwise valid content; TLC requires the write to raise (C12.MustRaise) and, for degenerate inputs that may be written, that every C01-C09/C16 clause holds on the file (composite clause).',
+            'design_ref': 'DESIGN.md 6/C12', 'note': TRUST, 'technique': TECH},
+    'C13': {'text': 'From the expected rows of the index channel (integer-valued data of every dtype) TLC recomputes min, max and consecutive differences in exact integer arithmetic and compares with the decoded INDEX-MIN/MAX/SPACING/DIRECTION, including user-supplied values, windows and write-write histories.',
+            'design_ref': 'DESIGN.md 6/C13', 'note': TRUST, 'technique': TECH},
+    'C14': {'text': 'Histories run in one process (other files built and written first, names reused with other origin/copy/type/value, compatibility mode entered and left, the same object written twice, mutation after a write) are compared by TLC with a fresh process that builds the final Canon alone: equal Canon and data => equal bytes.',
+            'design_ref': 'DESIGN.md 6/C14', 'note': TRUST, 'technique': TECH},
+    'C17': {'text': 'The flag is modelled as a save/restore stack; after every event the observed global flag must equal the model (normal exit, exit by exception, nested, decorator). TLC derives breaches from Canon (names, header id, set identifier, enumerated values) and from the data (signed integers; generator-claimed: channel/frame cardinality, non-uniform index) and forbids a successful write inside the mode; outside it the same inputs must be accepted.',
+            'design_ref': 'DESIGN.md 6/C17', 'note': TRUST, 'technique': TECH},
+    'C18': {'text': 'TLC splits the decoded file into logical files at FILE-HEADER records and compares each with the Canon of the i-th logical file: headers, per-set inventories (no object missing, none from another logical file), per-frame rows and numbering; shared-set configurations may raise or must be written uncontaminated.',
+            'design_ref': 'DESIGN.md 6/C18', 'note': TRUST, 'technique': TECH},
+    'C19': {'text': 'Every write event carries the bytes of every caller-owned base buffer (whole buffer around views), the key list / value identities of the dict and the SHA-256 of the HDF5 file before and after; TLC requires equality for successful and failed writes.',
+            'design_ref': 'DESIGN.md 6/C19', 'note': TRUST + ' SHA-256 of the HDF5 file is computed by the harness.', 'technique': TECH},
+    'C20': {'text': 'Rejected calls do not enter Canon, so any trace of them in a later file is a mismatch with Canon; process 2 replays the history without the rejected calls and TLC compares the projections (copy number, origin reference, dataset name) of the accepted objects; a failed write followed by a good one is compared with a fresh process.',
+            'design_ref': 'DESIGN.md 6/C20', 'note': TRUST, 'technique': TECH},
 }
 
-_WIP = 'not yet claimed in this revision: the specification modules for it exist or are being built, the check is not registered until it runs clean'
-NOT_APPLICABLE = {p: _WIP for p in ['C03', 'C04', 'C05', 'C07', 'C08', 'C09', 'C11', 'C12', 'C13', 'C14', 'C17', 'C18', 'C19', 'C20']}
+NOT_APPLICABLE = {}
